@@ -201,6 +201,17 @@ TText ==
   /\ IsEvent("Text") /\ Obs
   /\ TextOK(S, U, pts, E.p, AsSet(E.terms), E.op, E.limit, E.w4, E.filter, E.hits, E.tol)
 
+\* Known finding C05-repeat: an update request that names one point twice and changes its text both times.  The
+\* text index analyses the changes of a batch on parallel workers and applies them in the order the workers
+\* finish, so the index may end up describing the FIRST of the two texts while the stored document holds the
+\* second.  Signature: a text query that departs from the model, issued by the driver's probe right after such a
+\* request (E.rep = 1, a fact about the driver's own last request); the probe ends the history.
+TTextRepeat ==
+  /\ IsEvent("Text") /\ E.rep = 1 /\ "C05-repeat" \in KnownFindings
+  /\ ~TextOK(S, U, pts, E.p, AsSet(E.terms), E.op, E.limit, E.w4, E.filter, E.hits, E.tol)
+  /\ kf' = kf \cup {"C05-repeat"}
+  /\ UNCHANGED <<pts, nodeOf, free, next, count, fault>> /\ Env /\ VersKeep
+
 \* persisted similarity graph of property E.p (C10): one node and one vector
 \* per live point that has the field plus the entry node 1; edges lead to
 \* existing nodes other than their source; out-degree <= R except for the
@@ -342,7 +353,7 @@ TQuiet == IsEvent("Quiet") /\ Obs
 
 TraceNext ==
   \/ TReset \/ TFault \/ TInsert \/ TUpdate \/ TDelete \/ TFork \/ TRestore \/ TCrash
-  \/ TCount \/ TGet \/ TFilter \/ TFlat \/ TVamana \/ TVamanaPair \/ TFlatPair \/ TCSearch \/ TErrKnown \/ TText \/ TGraph \/ TQuiet
+  \/ TCount \/ TGet \/ TFilter \/ TFlat \/ TVamana \/ TVamanaPair \/ TFlatPair \/ TCSearch \/ TErrKnown \/ TText \/ TTextRepeat \/ TGraph \/ TQuiet
 
 TraceSpec == TraceInit /\ [][TraceNext]_vars
 
